@@ -80,7 +80,7 @@ func renameDoc(v any, names map[string]bool, suffix string) any {
 
 func genC13(t *rapid.T) any {
 	b := C13Batch{}
-	b.Scenario = rapid.SampledFrom([]string{"fresh-selectors-separate-documents", "fresh-selectors-separate-documents", "warm-selectors-separate-documents", "shared-document", "shared-document", "internal-parallelism", "path-selectors", "same-query-text", "same-query-text", "function-side-effects"}).Draw(t, "scenario")
+	b.Scenario = rapid.SampledFrom([]string{"fresh-selectors-separate-documents", "fresh-selectors-separate-documents", "warm-selectors-separate-documents", "shared-document", "shared-document", "internal-parallelism", "path-selectors", "same-query-text", "same-query-text", "function-side-effects", "own-constants"}).Draw(t, "scenario")
 	b.Procs = rapid.SampledFrom([]int{1, 2, 4, 16}).Draw(t, "procs")
 	b.Repeat = rapid.IntRange(1, 3).Draw(t, "repeat")
 	ng := rapid.IntRange(2, 8).Draw(t, "goroutines")
@@ -94,6 +94,34 @@ func genC13(t *rapid.T) any {
 	var sharedSc *c07Schema
 	if b.Shared {
 		sharedDoc, sharedSc = genC07Doc(t)
+	}
+	if b.Scenario == "own-constants" {
+		// every goroutine filters a table of its own (20-60 rows) with constants of its own - LIKE patterns, IN
+		// lists, BETWEEN bounds, strings compared for equality: what one query compares with is its own business
+		for g := 0; g < ng; g++ {
+			nr := rapid.IntRange(20, 60).Draw(t, fmt.Sprintf("g%d.rows", g))
+			rows := []any{}
+			for r := 0; r < nr; r++ {
+				rows = append(rows, map[string]any{"k": float64(r), "s": fmt.Sprintf("p%dx%d", r%ng, r), "n": float64(r % ng)})
+			}
+			doc := map[string]any{"t": rows}
+			nq := rapid.IntRange(1, 3).Draw(t, fmt.Sprintf("g%d.n", g))
+			var list []C13Q
+			for qi := 0; qi < nq; qi++ {
+				l := fmt.Sprintf("g%d.q%d", g, qi)
+				cond := rapid.SampledFrom([]string{"s LIKE 'p%dx%%'", "s NOT LIKE 'p%dx%%'", "s LIKE 'P%dX_'", "s LIKE '%%%d'", "n IN (%d, 99)", "n NOT IN (%d)", "n BETWEEN %d AND %d", "s = 'p%dx%d'", "s > 'p%d'",
+					"CASE WHEN s LIKE 'p%dx%%' THEN n ELSE -1 END = %d", "k IN (SELECT k FROM `<-t` WHERE s LIKE 'p%dx%%')"}).Draw(t, l+".cond")
+				args := make([]any, strings.Count(cond, "%d"))
+				for i := range args {
+					args[i] = g
+				}
+				cond = fmt.Sprintf(cond, args...)
+				b.Docs = append(b.Docs, val.CopyMap(doc))
+				list = append(list, C13Q{Doc: len(b.Docs) - 1, SQL: "SELECT k, s FROM t WHERE " + cond})
+			}
+			b.G = append(b.G, list)
+		}
+		return &C13Case{Batch: b}
 	}
 	if b.Scenario == "function-side-effects" {
 		// ASYNC / SPINASYNC calls in top-level and nested positions write, unsynchronised, one cell per
